@@ -377,6 +377,12 @@ package memfs
 //@   allocates memfs.Dir memfs.File
 //@   ensures Tree()
 //@   at_call getNodeByPath requires $1 == cleanPath(old(src))
+// a copy whose source cannot be resolved creates nothing
+//@   trace getNodeByPath as SRC bind srcres
+//@   trace mkdirAllNodes as MKDIRS
+//@   trace (*Dir).addNode as ADD
+//@   trace_ensures srcres.1 != nil : ^SRC $
+//@   trace_ensures srcres.1 == nil : ^(SRC MKDIRS (ADD )?)?$
 //@   at_call splitContainsPath requires $0 == cleanPath(old(dest))
 //@ func (*Filespace).CopyDirectory [C01 C09]
 //@   requires FsInv(fs)
@@ -384,6 +390,12 @@ package memfs
 //@   allocates memfs.Dir memfs.File
 //@   ensures Tree()
 //@   at_call getDirByPath requires $1 == cleanPath(old(src))
+// a copy whose source cannot be resolved creates nothing
+//@   trace getDirByPath as SRC bind srcres
+//@   trace mkdirAllNodes as MKDIRS
+//@   trace (*Dir).addNode as ADD
+//@   trace_ensures srcres.1 != nil : ^SRC $
+//@   trace_ensures srcres.1 == nil : ^(SRC MKDIRS (ADD )?)?$
 //@   at_call splitContainsPath requires $0 == cleanPath(old(dest))
 //@ func (*Filespace).CopyFile [C01 C09]
 //@   requires FsInv(fs)
@@ -391,6 +403,12 @@ package memfs
 //@   allocates memfs.Dir memfs.File
 //@   ensures Tree()
 //@   at_call getFileByPath requires $1 == cleanPath(old(src))
+// a copy whose source cannot be resolved creates nothing
+//@   trace getFileByPath as SRC bind srcres
+//@   trace mkdirAllNodes as MKDIRS
+//@   trace (*Dir).addNode as ADD
+//@   trace_ensures srcres.1 != nil : ^SRC $
+//@   trace_ensures srcres.1 == nil : ^(SRC MKDIRS (ADD )?)?$
 //@   at_call splitContainsPath requires $0 == cleanPath(old(dest))
 //@ func (*Filespace).ReadDir [C01 C09]
 //@   requires FsInv(fs)
@@ -462,6 +480,8 @@ package memfs
 //@   ensures Tree()
 //@   ensures err == nil ==> typeis(writer, "*memfs.FileHandler") && payload(writer) != 0 && as(writer, "*memfs.FileHandler").pointer == 0 && isa(as(writer, "*memfs.FileHandler").file, "memfs.File")
 //@   ensures err == nil ==> len(as(writer, "*memfs.FileHandler").file.data) == 0
+// C09: also under interleaving: the truncation happens inside the handle's own critical section
+//@   conc_ensures err == nil ==> typeis(writer, "*memfs.FileHandler") && len(as(writer, "*memfs.FileHandler").file.data) == 0
 //@   ensures err != nil ==> writer == nil
 //@ func (*Filespace).Filespace [C01 C03]
 
